@@ -388,12 +388,13 @@ WellSorted(t, tb) ==
 FuncsIn(t) == E!UFuncs(t)
 
 \* ------------------------------------------------------------------ (c) identities as data
-(* [id, l, r, rel, nv, g, w]:  l, r terms with holes Z (and W when nv = 2);
+(* [id, l, r, rel, nv, g]:  l, r terms with holes Z (and W when nv = 2);
    rel  "eq"      l = r                                   (1e-9 relative, measured in the adapter)
         "rege0"   Re(l) >= 0                              (r unused)
         "imrange" -pi < Im(l) <= pi                       (r unused)
-   g = guard on the point: which points of the grid the identity is instantiated at (see Guard);
-   w = "tight" | "loose": loose identities amplify rounding near poles / through cancellation (1e-7). *)
+   g = guard on the point: which points of the grid the identity is instantiated at (see Guard); guards keep an
+       identity away from points where it holds only on one branch (left inverses) or where the two sides cancel
+       catastrophically in floating point (differences of squares next to a pole). *)
 Id(id, l, r, g) == [id |-> id, l |-> l, r |-> r, rel |-> "eq", nv |-> 1, g |-> g]
 Id2(id, l, r, g) == [id |-> id, l |-> l, r |-> r, rel |-> "eq", nv |-> 2, g |-> g]
 Rel(id, l, rel, g) == [id |-> id, l |-> l, r |-> NatT(0), rel |-> rel, nv |-> 1, g |-> g]
@@ -527,7 +528,7 @@ Guard(g, z, w) ==
   CASE g = "any" -> TRUE
     [] g = "mod" -> Mod3(z[1]) /\ Mod3(z[2]) /\ Mod3(w[1]) /\ Mod3(w[2])
     \* moderate and not tiny: the difference of two squares of size 1/|z|^2 loses 2 log10(1/|z|) digits
-    [] g = "mod_nt" -> Mod3(z[1]) /\ Mod3(z[2]) /\ (GIs0(z) \/ Leq(Q(1, 1000), RAbs(z[1])) \/ Leq(Q(1, 1000), RAbs(z[2])))
+    [] g = "mod_nt" -> Mod3(z[1]) /\ Mod3(z[2]) /\ (GIs0(z) \/ Leq(Q(1, 100), RAbs(z[1])) \/ Leq(Q(1, 100), RAbs(z[2])))
     [] g = "strip" -> Mod3(z[1]) /\ Mod3(z[2])                              \* |Im z| <= 3 < pi and no overflow
     [] g = "int6" -> IsRe(z) /\ x[2] = 1 /\ Abs(x[1]) <= 6
     [] g = "real_mod" -> IsRe(z) /\ Mod3(x)
@@ -540,7 +541,6 @@ Guard(g, z, w) ==
     [] g = "real2" -> IsRe(z) /\ IsRe(w) /\ Mod3(x) /\ Mod3(w[1])
     [] g = "real2_xnz" -> IsRe(z) /\ IsRe(w) /\ Mod3(x) /\ Mod3(w[1]) /\ x[1] # 0
 
-\* every point of a grid is recovered exactly from its term (otherwise domains would silently go unexamined)
 (* one identity at one point: both sides as terms, their statuses, whether the relation is to be checked, and (where
    both sides are exactly computable) whether the exact layer confirms the relation *)
 Instance(k, z, w, tb) ==
@@ -690,6 +690,8 @@ LawRanges(f, x) == (f \in ScalarFns /\ RealDom(f, x)) =>
   /\ (SignOf(f, x) = "zero" /\ rs # {}) => \E iv \in rs : iv[1][1] <= 0 /\ iv[2][1] >= 0
   /\ (rs # {}) <=> f \in {"arcsin", "arccos", "arctan", "arcsec", "arccsc", "arccot"}
 \* terms
+\* every point of a grid is recovered exactly from its term (otherwise domains would silently go unexamined: this law
+\* found that 1/1000000 was at first treated as "not exactly known")
 LawGaussTerm(z, tb) == Ev(GaussT(z), tb) = RX("val", z)
 LawTerm(t, tb) == LawRenderParses(t) /\ LawOnlyNaturalLiterals(t) /\ WellSorted(t, tb)
 \* identities: rendering, sorts, statuses, and agreement with the exact layer wherever both sides are exact
